@@ -240,7 +240,23 @@ func c01P2WSH(sh []byte) []byte { return append([]byte{txscript.OP_0, txscript.O
 // the output as W's exactly when hOut = hW, the input as W's exactly when hIn = hW, nothing for V, and the
 // transaction as relevant exactly when one of the two holds; an input index beyond the previous transaction's
 // outputs is refused.
-func VerifC01RelevanceFilter() {
+func VerifC01RelevanceFilter() { c01RelevanceFilter(false) }
+
+// the same with the output (and the spent previous output) a standard, staking or binding script around the hash
+func VerifC01RelevanceFilterClasses() { c01RelevanceFilter(true) }
+
+func c01Shape(sh []byte, shape int) []byte {
+	s := c01P2WSH(sh)
+	switch shape {
+	case 1:
+		s = append(append(s, 8), rt.NondetBytes(8)...)
+	case 2:
+		s = append(append(s, 20), rt.NondetBytes(20)...)
+	}
+	return s
+}
+
+func c01RelevanceFilter(classes bool) {
 	st := txmgr.VerifNewStoresWithKeystoreManager([]byte("DJr6BomK"))
 	const W, V, X = "ac10wwwwwwwwwwwwwwwwwwwwwwwwwwwwwwwwwwwwww", "ac10vvvvvvvvvvvvvvvvvvvvvvvvvvvvvvvvvvvvvv", "ac10xxxxxxxxxxxxxxxxxxxxxxxxxxxxxxxxxxxxxx"
 	hW, hV, hIn, hOut := rt.NondetBytes(32), rt.NondetBytes(32), rt.NondetBytes(32), rt.NondetBytes(32)
@@ -276,13 +292,28 @@ func VerifC01RelevanceFilter() {
 	rt.Assume(c01TxSeeds[0] != c01TxSeeds[1])
 	prev := wire.NewMsgTx()
 	prev.AddTxIn(wire.NewTxIn(&wire.OutPoint{Index: 7}, nil))
-	prev.AddTxOut(wire.NewTxOut(5, c01P2WSH(hIn)))
-	prev.AddTxOut(wire.NewTxOut(6, c01P2WSH(hIn)))
+	inShape, outShape := 0, 0
+	if classes {
+		inShape, outShape = rt.NondetLen(0, 2), rt.NondetLen(0, 2)
+	}
+	inScript, outScript := c01Shape(hIn, inShape), c01Shape(hOut, outShape)
+	if classes {
+		// scripts consensus reads as one of the three wallet-relevant classes (a staking script needs a legal shape
+		// only; its frozen period is arbitrary here)
+		_, e1 := utils.ParsePkScript(inScript, config.ChainParams)
+		_, e2 := utils.ParsePkScript(outScript, config.ChainParams)
+		rt.Assume(e1 == nil && e2 == nil)
+	}
+	prev.AddTxOut(wire.NewTxOut(5, inScript))
+	prev.AddTxOut(wire.NewTxOut(6, inScript))
 	prevID := prev.TxHash()
 	idx := uint32(rt.NondetLen(0, 2))
+	if classes {
+		idx = uint32(rt.NondetLen(0, 1))
+	}
 	tx := wire.NewMsgTx()
 	tx.AddTxIn(wire.NewTxIn(&wire.OutPoint{Hash: prevID, Index: idx}, nil))
-	tx.AddTxOut(wire.NewTxOut(4, c01P2WSH(hOut)))
+	tx.AddTxOut(wire.NewTxOut(4, outScript))
 	rt.Assume(!blockchain.IsCoinBaseTx(tx))
 	txID := tx.TxHash()
 	inMine := bytes.Equal(hIn, hW)
@@ -311,6 +342,11 @@ func VerifC01RelevanceFilter() {
 	rel, rec, ferr := h.filterTx(tx, meta, map[wire.Hash]*txmgr.TxRecord{}, ready)
 	if idx >= 2 && inMine {
 		rt.Assert(ferr != nil, "input-index-beyond-the-previous-outputs-refused")
+		rt.Reach("end")
+		return
+	}
+	if classes && inShape == 2 && outShape == 2 && inMine && outMine {
+		rt.Assert(ferr == ErrBothBinding, "binding-in-and-out-refused")
 		rt.Reach("end")
 		return
 	}
